@@ -1471,7 +1471,10 @@ def _has_dup_or_unrecognised(g, msg):
 class C15(Prop):
     id = "C15"
     module = "C15"
-    theorems = ["C15_counts_fit", "C15_layouts_fit", "C15_over_capacity_partial"]
+    theorems = ["C15_layouts_fit", "C15_counts_fit", "C15_size", "C15_truncated", "C15_over_capacity_vec", "C15_over_capacity_str", "C15_no_utf8_all_but_1029"]
+    partial_note = ("partial: size bound (every accepted message fits 8184 bits), count fields wide enough for their capacity, capacity rejection and 'a successful decode never "
+                    "reads past the payload' are proved by induction over the layout; count-on-wire = number of elements and order preservation rest on the bit-packing "
+                    "round trip and are covered by the correspondence only")
     table_obligations = ["counts_fit", "layouts_fit"]
     rule = ("for every list-bearing message type of the regenerated layouts: ROUNDTRIP with n elements for n in {0,1,2,cap-1,cap} and random n (thorough: every n), the count field read back "
             "from the wire; DECODE of frames with every count value above the capacity patched in; DECODE of every truncation of a full-length frame (re-framed, valid CRC); "
